@@ -81,7 +81,9 @@ def run(chk):
     # fourth stage, fixed (nothing drawn from the generator, run after every stage that slices `outs`): the dynamical ejection asked to remove all, or all
     # but a few hundred-thousandths, of the BH mass - the "kicking basically all, skip ahead" shortcut of _evolve: numbers and masses empty together
     outs = outs + FR.run_many([dict(base_, tout=[100.0, 12000.0], BH_ret_dyn=0.0), dict(base_, tout=[30.0, 3000.0], BH_ret_dyn=1e-5),
-                               dict(base_, tout=[12000.0], N0=2e3, BH_ret_dyn=0.01), dict(base_, tout=[500.0], BH_ret_dyn=0.0, esc_rate=-10.0)])
+                               dict(base_, tout=[12000.0], N0=2e3, BH_ret_dyn=0.01), dict(base_, tout=[500.0], BH_ret_dyn=0.0, esc_rate=-10.0)] + [
+        {k_: v_ for k_, v_ in kf_["witness"].items() if k_ not in ("observed", "found_by")}      # the witness of each listed finding of this property is run every time
+        for kf_ in C.load_known() if kf_["property"] == "C05" and kf_.get("status") == "open" and "m_breaks" in kf_.get("witness", {})])
     for out in outs:
         cfg = out["cfg"]
         if "error" in out:
@@ -103,8 +105,11 @@ def run(chk):
                     chk.count("populated star bins")
                     hi = min(up[i], mto)
                     if not (lo[i] * (1 - 1e-9) <= ms[i] <= hi * (1 + 1e-9)):
+                        al = float(out["alpha"][row][i])
                         chk.fail("each populated star bin's mean mass lies between its lower edge and the smaller of upper edge and turn-off mass",
-                                 dict(cfg=cfg, row=row, age=t), dict(bin=i, ms=float(ms[i]), lower=float(lo[i]), upper=float(up[i]), mto=mto, N=float(Ns[i])))
+                                 dict(cfg=cfg, row=row, age=t), dict(bin=i, ms=float(ms[i]), lower=float(lo[i]), upper=float(up[i]), mto=mto, N=float(Ns[i]),
+                                                                    alpha=al, P1=pk_plain(al, 1, lo[i], hi), P2=pk_plain(al, 2, lo[i], hi)),
+                                 moment_below_pk_abs_threshold=bool(math.isnan(ms[i]) and pk_under_threshold(al, lo[i], hi)))
                         break
             for c, cname in enumerate(("WD", "NS", "BH")):
                 bl, bu = out["bins"][c + 1]
@@ -128,6 +133,25 @@ def run(chk):
     chk.samples.append(dict(cfg=cfgs[0]))
     chk.trusted += ["harness/props/C05.py + fullrun.py", "cone invariance is proved for the fields (deposit cone, radial escape) but NOT for DOPRI5 steps "
                     "(negative weight b5): the per-row statement is validated on sampled configurations"]
+
+
+def pk_plain(a, k, m1, m2):
+    """the closed form of masses.Pk WITHOUT its NaN threshold (plain floats)"""
+    p = a + k
+    return float(math.log(m2 / m1) if p == 0 else (float(m2) ** p - float(m1) ** p) / p)
+
+
+def pk_under_threshold(a, m1, m2):
+    """a moment of the bin (first or second) is a POSITIVE number below the absolute threshold 1e-15 under which masses.Pk returns NaN - on an
+    interval that is not thin (upper edge at least 1e-6 above the lower one, relatively): the class of C12/pk_nan_below_abs_resolution"""
+    res = float(np.finfo(float).resolution)
+    return bool(m2 > m1 * (1 + 1e-6) and any(0 < pk_plain(a, k, m1, m2) < res for k in (1, 2)))
+
+
+def classify(f):
+    if f["clause"].startswith("each populated star bin's mean mass") and f.get("moment_below_pk_abs_threshold"):
+        return "star_moment_below_pk_abs_threshold"
+    return None
 
 
 def replay(chk, payload):
